@@ -200,6 +200,11 @@ def scenarios(tier):
     # a send nested in the first of 7 receives on a full channel: what it leaves behind is met by the
     # later receives (a slot named by `full` whose cell is empty panics only when its turn comes)
     q.append(sc("r1x7_nested_full", 0, 0, 1, 7, 5, ["--nested", 1, "--preempt", 0, "--post-points"]))
+    # generated programs (lib/genprog.py)
+    import genprog
+    for seed in range(40 if tier == "thorough" else 6):
+        name, s_, ns_, r_, nr_, pre_, extra_, spur_ = genprog.channel_program(seed)
+        q.append(sc(name, s_, ns_, r_, nr_, pre_, extra_, spur=spur_))
     if tier == "thorough":
         q += [
             sc("s2x2_r1x3_p2", 2, 2, 1, 3, 0, ["--preempt", 2]),
@@ -241,7 +246,8 @@ def run_channel(chk, tier):
     for name, args, tconsts, spur, rel in todo:
         out = os.path.join(WORK, "ch_%s_%s" % (chk.pid, name))
         fine_max = 300 if tier == "quick" else 3000
-        stats, _, _ = harness("channel", *args, "--out", out, "--max", 300000,
+        stats, _, _ = harness("channel", *args, "--out", out,
+                              "--max", 3000 if name.startswith("cgen") else 300000,
                               "--fine-max", fine_max, timeout=3000, rel=rel)
         chk.evaluations += stats["schedules"]
         chk.distinct += stats["distinct_abs_traces"]
